@@ -40,6 +40,14 @@ CHECKS = {
         note=LEVEL_NOTE_COMMON + "Axioms: none. Integers modelled as Z (values whose sums fit); grid reads go through the C17 grid model with the exact PointIndex the code builds.",
         technique="Coq proof (case analysis over straight-line model, checker soundness by construction) + exhaustive differential correspondence + proved checker as oracle",
         design="§7 C16"),
+    "C08": dict(
+        text="Theorems (Coq, every operation from every reachable state, hence every history): the UltraMatrixGraph model (petgraph IdStorage allocator with LIFO id reuse, "
+             "adjacency cells, nb_edges counter, node_map, index_map, root_index) keeps its representation invariant and refines a plain directed-graph spec "
+             "(same return values, same full observation); the spec's clauses (fresh index, value stable until removed, failure iff absent/duplicate and then no change, "
+             "exact edge-set effect of every op) are proved. The spec checker proved to accept the model is applied to the implementation's observed runs.",
+        note=LEVEL_NOTE_COMMON + "Axioms: none. petgraph 0.7.1 MatrixGraph behaviour is modelled (not verified) and correspondence-tested; hash iteration order is removed by sorting.",
+        technique="Coq proof (refinement with representation invariant, induction over histories) + differential correspondence + proved spec checker as oracle",
+        design="§7 C08"),
 }
 
 ALL = [f"C{n:02d}" for n in range(1, 20)]
